@@ -140,3 +140,8 @@ Definition right_ctx (mk look : bool) (C R : str) : Prop :=
     | r :: _ => closing mk r = false /\ (C = [] -> is_quote r = false)
     end
   else C = [].
+
+(* every occurrence of the closing bracket [cl] in A has an opening bracket [op] somewhere to its left
+   (used for the prefix search, which skips `[...]` and `{...}` pairs without nesting) *)
+Definition opener_left (cl op : char) (A : str) : Prop :=
+  forall P S, A = P ++ cl :: S -> In op P.
